@@ -864,7 +864,7 @@ def adapt_typehints(
 
     # Tuple or Set
     elif typehint_origin in tuple_set_origin_types:
-        if not isinstance(val, (list, tuple, set)):
+        if not isinstance(val, (list, tuple, set)) or isinstance(val, NestedArg):  # (a nested key given for the argument is a tuple too)
             raise_unexpected_value(f"Expected a {typehint_origin}", val)
         val = list(val)
         if subtypehints is not None:
